@@ -81,8 +81,9 @@ def make_event(case):
     rk = observe_reused(buf, funcs, True, common.pick(key, 2))
     rd = observe_reused(buf, funcs, False, common.pick(key, 4) // 2)
     if rk != ev["keep"] or rd != ev["drop"]:
-        ev["keep"], ev["drop"], ev["reused"] = rk, rd, True
-    return ev
+        # they disagree, so one of them is wrong: both observations are validated
+        return [ev, {"buf": buf, "funcs": funcs, "keep": rk, "drop": rd, "reused": True}]
+    return [ev]
 
 
 def domain(ctx):
@@ -173,7 +174,7 @@ def run(ctx, cases=None):
         res.rule = "replay"
     from ..common import Pool
     with Pool(16) as pool:
-        events = pool.map(make_event, cases, chunksize=2000)
+        events = [e for l in pool.map(make_event, cases, chunksize=2000) for e in l]
     res.extra["reused_tokenizer_disagreements"] = sum(1 for e in events if e.get("reused"))
     fails, st = tlc.validate_sharded("TraceTok", "TraceTok.cfg", [{k: v for k, v in e.items() if k != "reused"} for e in events], ctx.work, shard_size=max(1500, len(events) // 32 + 1))
     res.states += st["distinct"]
@@ -197,7 +198,7 @@ def run(ctx, cases=None):
 
 def selftest(ctx):
     """Binding demonstration: corrupt one recorded field and show the trace is rejected."""
-    ev = make_event({"buf": [ord(c) for c in "2x + sgn(3)"], "funcs": [SGN]})
+    ev = make_event({"buf": [ord(c) for c in "2x + sgn(3)"], "funcs": [SGN]})[0]
     good, _ = tlc.validate_sharded("TraceTok", "TraceTok.cfg", [dict(ev)], ctx.work)
     bad = dict(ev)
     bad["keep"] = dict(ev["keep"]); bad["keep"]["t"] = list(ev["keep"]["t"]); bad["keep"]["t"][0] = 1
